@@ -198,7 +198,7 @@ theorem StripMap.covers {f : MeshFields} {τ : List Nat} (h : StripMap f τ) (hw
 theorem covers_of_perm {f : MeshFields} {ρ : List Nat} (hwf : WFP f)
     (hρ : ρ.Perm (List.range f.mesh.points.length)) : Covers f ρ where
   nodup := hρ.nodup_iff.mpr List.nodup_range
-  lt p hp := List.mem_range.mp (hρ.mem_iff.mp hp)
+  lt _ hp := List.mem_range.mp (hρ.mem_iff.mp hp)
   corners b hb row hrow p hp := hρ.mem_iff.mpr (List.mem_range.mpr (hwf.inRange b hb row hrow p hp))
 
 theorem stripMap_spec' {as : List Int → List Nat} (has : IsArgsort as) (f : MeshFields) :
@@ -326,5 +326,312 @@ theorem applyPointMap_id {f : MeshFields} (hwf : WFP f) :
   rw [h1] at hm hp hcf
   simp only at hm hp hcf
   rw [hm, hp, hcf]
+
+/-! ### a relabelled view is a `Relabeled` copy; the hypotheses of the point sort are invariant -/
+
+theorem applyCellMaps_mesh_congr {x y : MeshFields} (h : x.mesh = y.mesh) (κ : String → List Nat) :
+    (applyCellMaps x κ).mesh = (applyCellMaps y κ).mesh := by
+  unfold applyCellMaps
+  simp only [h]
+
+/-- `applyCellMaps (applyPointMap g ρ) κ` stores `g` with the points in the order `ρ` and the cells of
+    every block in the order `κ`: the index-level relation `Relabeled` -/
+theorem relabeled_of_view {g : MeshFields} {ρ : List Nat} {κ : String → List Nat}
+    (hin : ∀ b ∈ g.mesh.cells, ∀ row ∈ b.2, ∀ p ∈ row, p < g.mesh.points.length)
+    (hρ : ρ.Perm (List.range g.mesh.points.length))
+    (hκ : ∀ b ∈ g.mesh.cells, (κ b.1).Perm (List.range b.2.length)) :
+    Relabeled g.mesh (applyCellMaps (applyPointMap g ρ) κ).mesh ρ where
+  dim := rfl
+  perm := hρ
+  points := rfl
+  wf := by
+    intro row hrow p hp
+    unfold allRows at hrow
+    obtain ⟨b, hb, hr⟩ := List.mem_flatMap.mp hrow
+    exact hin b hb row hr p hp
+  rows := by
+    unfold allRows applyCellMaps applyPointMap
+    simp only [List.map_map, List.flatMap_map, List.map_flatMap]
+    apply List.Perm.flatMap_left
+    intro b hb
+    simp only [Function.comp]
+    apply perm_map_getD
+    rw [List.length_map]
+    exact hκ b hb
+
+theorem Relabeled.item_of_mem {m1 m2 : Mesh} {ρ : List Nat} (h : Relabeled m1 m2 ρ) {a' : PItem}
+    (ha' : a' ∈ pitems m2) : ∃ a ∈ pitems m1, a' = relabelItem ρ a := by
+  obtain ⟨a, ha, e⟩ := List.mem_map.mp (h.onto.mem_iff.mpr ha')
+  exact ⟨a, ha, e.symm⟩
+
+/-- the hypotheses of the point sort (`Sep` of coordinates and candidate centres; coincident points
+    have finite adjacent centres among the candidates) hold for a relabelled copy, with the SAME
+    margins and the SAME candidate centres (cell centres are bitwise unchanged) -/
+theorem Relabeled.pointHypP {m1 m2 : Mesh} {ρ : List Nat} (h : Relabeled m1 m2 ρ) {t : MeshTol} {A B M : Nat}
+    {c : List (List Int)} (hy : PointHypP t A B M m1 c) : PointHypP t A B M m2 c where
+  dimPos := h.dim ▸ hy.dimPos
+  rowLen := by
+    intro r hr
+    rw [h.points] at hr
+    obtain ⟨i, hi, rfl⟩ := List.mem_map.mp hr
+    have hi' : i < m1.points.length := (h.mem_iff i).mp hi
+    rw [Fc.getD_of_lt _ _ hi', ← h.dim]
+    exact hy.rowLen _ (List.getElem_mem hi')
+  sepP := by
+    have hval : ∀ j, ∀ v ∈ (pitems m2).map (pkey j), v ∈ (pitems m1).map (pkey j) := by
+      intro j v hv
+      obtain ⟨a', ha', rfl⟩ := List.mem_map.mp hv
+      obtain ⟨a, ha, rfl⟩ := h.item_of_mem ha'
+      exact List.mem_map.mpr ⟨a, ha, rfl⟩
+    refine ⟨hy.sepP.hAB, hy.sepP.bounds, fun j hj => ?_, fun j hj a' ha' => ?_⟩
+    · exact sepCol_subset (hy.sepP.sep j (h.dim ▸ hj)) (hval j)
+    · obtain ⟨a, ha, rfl⟩ := h.item_of_mem ha'
+      exact hy.sepP.mag j (h.dim ▸ hj) a ha
+  sepC := h.dim ▸ hy.sepC
+  centres := by
+    intro a' ha' b' hb' hne hk
+    obtain ⟨a, ha, rfl⟩ := h.item_of_mem ha'
+    obtain ⟨b, hb, rfl⟩ := h.item_of_mem hb'
+    have hab : a ≠ b := fun e => hne (by rw [e])
+    have geo := h.sameGeometry
+    have hk1 : kvec (KC A m1) m1.dim 0 a = kvec (KC A m1) m1.dim 0 b := by
+      rw [← geom_KC (A := A) geo ha, ← geom_KC (A := A) geo hb]
+      exact hk
+    obtain ⟨cs, hcs, hsub⟩ := hy.centres a ha b hb hab hk1
+    rcases h.centres a.1 with ⟨hn, _⟩ | ⟨c1, c2, e1, e2, hp⟩
+    · rw [hcs] at hn; cases hn
+    · rw [hcs] at e1
+      cases e1
+      exact ⟨c2, e2, fun x hx => hsub x (hp.mem_iff.mpr hx)⟩
+
+/-! ### mesh tolerances do not depend on the order of the points -/
+
+theorem rowMax_init (r : List Int) : ∀ m : Nat,
+    r.foldl (fun m x => max m x.natAbs) m = max m (r.foldl (fun m x => max m x.natAbs) 0) := by
+  induction r with
+  | nil => intro m; simp
+  | cons x r ih =>
+    intro m
+    simp only [List.foldl_cons]
+    rw [ih (max m x.natAbs), ih (max 0 x.natAbs)]
+    omega
+
+theorem maxAbsCoord_perm {p1 p2 : List (List Int)} (h : p1.Perm p2) : maxAbsCoord p1 = maxAbsCoord p2 := by
+  unfold maxAbsCoord
+  apply List.Perm.foldl_eq' h
+  intro x _ y _ z
+  have e1 := rowMax_init x z
+  have e2 := rowMax_init y z
+  have e3 := rowMax_init y (x.foldl (fun m x => max m x.natAbs) z)
+  have e4 := rowMax_init x (y.foldl (fun m x => max m x.natAbs) z)
+  show y.foldl (fun m x => max m x.natAbs) (x.foldl (fun m x => max m x.natAbs) z) =
+    x.foldl (fun m x => max m x.natAbs) (y.foldl (fun m x => max m x.natAbs) z)
+  rw [e3, e4, e1, e2]
+  omega
+
+theorem meshTolOf_relabelF {f : MeshFields} {ρ : List Nat} (κ : String → List Nat)
+    (hρ : ρ.Perm (List.range f.mesh.points.length)) : meshTolOf (relabelF ρ κ f).mesh = meshTolOf f.mesh := by
+  unfold meshTolOf
+  have : maxAbsCoord (relabelF ρ κ f).mesh.points = maxAbsCoord f.mesh.points :=
+    maxAbsCoord_perm (perm_map_getD f.mesh.points [] hρ)
+  rw [this]
+
+/-! ### stripping a relabelled data set -/
+
+/-- connectedness in a relabelled copy -/
+theorem connected_relabelF {f : MeshFields} {ρ : List Nat} {κ : String → List Nat}
+    (hκ : ∀ b ∈ f.mesh.cells, (κ b.1).Perm (List.range b.2.length)) (q : Nat) :
+    (relabelF ρ κ f).mesh.connected q = true ↔ ∃ p, f.mesh.connected p = true ∧ q = ρ.idxOf p := by
+  rw [Fc.connected_iff]
+  have hperm : ∀ b ∈ f.mesh.cells,
+      ((κ b.1).map fun c => (b.2.map fun row => row.map fun p => ρ.idxOf p).getD c []).Perm
+        (b.2.map fun row => row.map fun p => ρ.idxOf p) := by
+    intro b hb
+    apply perm_map_getD
+    rw [List.length_map]
+    exact hκ b hb
+  constructor
+  · rintro ⟨b'', hb'', row'', hrow'', hq⟩
+    unfold relabelF applyCellMaps applyPointMap at hb''
+    simp only [List.map_map, List.mem_map, Function.comp] at hb''
+    obtain ⟨b, hb, rfl⟩ := hb''
+    have hrow2 := (hperm b hb).mem_iff.mp hrow''
+    obtain ⟨row, hrow, rfl⟩ := List.mem_map.mp hrow2
+    obtain ⟨p, hp, rfl⟩ := List.mem_map.mp hq
+    exact ⟨p, Fc.connected_of_mem hb hrow hp, rfl⟩
+  · rintro ⟨p, hp, rfl⟩
+    obtain ⟨b, hb, row, hrow, hpr⟩ := (Fc.connected_iff _ _).mp hp
+    refine ⟨(b.1, (κ b.1).map fun c => (b.2.map fun row => row.map fun p => ρ.idxOf p).getD c []), ?_,
+      row.map (fun p => ρ.idxOf p), ?_, List.mem_map_of_mem hpr⟩
+    · unfold relabelF applyCellMaps applyPointMap
+      simp only [List.map_map, List.mem_map, Function.comp]
+      exact ⟨b, hb, rfl⟩
+    · exact (hperm b hb).mem_iff.mpr (List.mem_map_of_mem hrow)
+
+/-- **stripping a relabelled data set**, for every `argsort`: the result is the original with its
+    connected points in SOME order `τ` and the cells in the order `κ` -/
+theorem strip_relabelF {as : List Int → List Nat} (has : IsArgsort as) {f : MeshFields} (hwf : WFP f)
+    {ρ : List Nat} {κ : String → List Nat} (hρ : ρ.Perm (List.range f.mesh.points.length))
+    (hκ : ∀ b ∈ f.mesh.cells, (κ b.1).Perm (List.range b.2.length)) :
+    ∃ τ, StripMap f τ ∧ stripOrphans as (relabelF ρ κ f) = applyCellMaps (applyPointMap f τ) κ := by
+  have hσ := stripMap_spec' has (relabelF ρ κ f)
+  have cρ := covers_of_perm hwf hρ
+  have hlenX : (relabelF ρ κ f).mesh.points.length = ρ.length := by
+    show (ρ.map _).length = _
+    rw [List.length_map]
+  have hσlt : ∀ i ∈ unconnectedFilterMap as (relabelF ρ κ f).mesh, i < ρ.length := by
+    intro i hi
+    rw [← hlenX]
+    exact ((hσ.mem_iff i).mp hi).1
+  refine ⟨(unconnectedFilterMap as (relabelF ρ κ f).mesh).map (ρ.getD · 0), ⟨?_, ?_⟩, ?_⟩
+  · apply List.Nodup.map_on _ hσ.nodup
+    intro i hi j hj e
+    have := congrArg (fun p => ρ.idxOf p) e
+    simp only [idxOf_getD cρ.nodup (hσlt i hi), idxOf_getD cρ.nodup (hσlt j hj)] at this
+    exact this
+  · intro p
+    rw [List.mem_map]
+    constructor
+    · rintro ⟨i, hi, rfl⟩
+      obtain ⟨_, hconn⟩ := (hσ.mem_iff i).mp hi
+      obtain ⟨p', hp', rfl⟩ := (connected_relabelF hκ i).mp hconn
+      have hp'lt : p' < f.mesh.points.length := Fc.connected_lt hwf hp'
+      have hp'ρ : p' ∈ ρ := hρ.mem_iff.mpr (List.mem_range.mpr hp'lt)
+      rw [getD_idxOf hp'ρ]
+      exact ⟨hp'lt, hp'⟩
+    · rintro ⟨hplt, hp⟩
+      have hpρ : p ∈ ρ := hρ.mem_iff.mpr (List.mem_range.mpr hplt)
+      refine ⟨ρ.idxOf p, ?_, getD_idxOf hpρ 0⟩
+      rw [hσ.mem_iff, hlenX]
+      exact ⟨List.idxOf_lt_length_iff.mpr hpρ, (connected_relabelF hκ _).mpr ⟨p, hp, rfl⟩⟩
+  · unfold stripOrphans
+    show applyPointMap (applyCellMaps (applyPointMap f ρ) κ) _ = _
+    rw [applyPointMap_applyCellMaps, applyPointMap_comp cρ hσlt hwf.pf]
+
+/-! ### the point sort of a stripped, relabelled data set -/
+
+theorem idxOf_map_of_inj {g : Nat → Nat} (x : Nat) : ∀ (l : List Nat), (∀ a ∈ l, g a = g x → a = x) →
+    (l.map g).idxOf (g x) = l.idxOf x
+  | [], _ => rfl
+  | a :: l, h => by
+    rw [List.map_cons, List.idxOf_cons, List.idxOf_cons,
+      idxOf_map_of_inj x l (fun b hb => h b (List.mem_cons_of_mem _ hb))]
+    by_cases e : a = x
+    · subst e
+      rw [beq_self_eq_true, beq_self_eq_true]
+    · have : g a ≠ g x := fun e' => e (h a (List.mem_cons_self ..) e')
+      rw [beq_eq_false_iff_ne.mpr this, beq_eq_false_iff_ne.mpr e]
+
+theorem pitems_fst_lt {m : Mesh} {a : PItem} (ha : a ∈ pitems m) : a.1 < m.points.length := by
+  rw [pitems_eq_map] at ha
+  obtain ⟨p, hp, rfl⟩ := List.mem_map.mp ha
+  exact List.mem_range.mp hp
+
+/-- **the sorted points of every stripped, relabelled view.**  `f` with its connected points in ANY
+    order `τ` and its cells in any order `κ`, sorted with ANY `argsort`, is `f` with the points in
+    the one order `J = τ0[I0]` (`τ0` = connected points ascending, `I0` = the index map the stable
+    argsort computes for that base) — the cell order `κ` is untouched. -/
+theorem sortPoints_view {as : List Int → List Nat} (has : IsArgsort as) {f : MeshFields} (hwf : WFP f)
+    {τ : List Nat} (hτ : StripMap f τ) (κ : String → List Nat)
+    (hκ : ∀ b ∈ f.mesh.cells, (κ b.1).Perm (List.range b.2.length))
+    {t : MeshTol} {A B M : Nat} {c : List (List Int)}
+    (hy0 : PointHypP t A B M (applyPointMap f (specStripMap f.mesh)).mesh c)
+    (hdist0 : ∀ a ∈ pitems (applyPointMap f (specStripMap f.mesh)).mesh,
+      ∀ b ∈ pitems (applyPointMap f (specStripMap f.mesh)).mesh,
+      kvec (KC A (applyPointMap f (specStripMap f.mesh)).mesh) (applyPointMap f (specStripMap f.mesh)).mesh.dim 0 a =
+        kvec (KC A (applyPointMap f (specStripMap f.mesh)).mesh) (applyPointMap f (specStripMap f.mesh)).mesh.dim 0 b →
+      kvec (KM A c argsortStable t (applyPointMap f (specStripMap f.mesh)).mesh)
+          (applyPointMap f (specStripMap f.mesh)).mesh.dim 0 a =
+        kvec (KM A c argsortStable t (applyPointMap f (specStripMap f.mesh)).mesh)
+          (applyPointMap f (specStripMap f.mesh)).mesh.dim 0 b → a = b)
+    (hne : specStripMap f.mesh ≠ []) :
+    ∃ I0, sortPointsIdx argsortStable t (applyPointMap f (specStripMap f.mesh)).mesh = some I0 ∧
+      (∀ j ∈ I0, j < (specStripMap f.mesh).length) ∧
+      PointHypP t A B M (applyCellMaps (applyPointMap f τ) κ).mesh c ∧
+      sortPoints as t (applyCellMaps (applyPointMap f τ) κ) =
+        some (applyCellMaps (applyPointMap f (I0.map ((specStripMap f.mesh).getD · 0))) κ) := by
+  have h0 := specStripMap_spec f
+  have c0 := h0.covers hwf
+  have cτ := hτ.covers hwf
+  have hρ' := h0.rebase_perm hτ
+  have hρ'lt : ∀ i ∈ τ.map (fun p => (specStripMap f.mesh).idxOf p), i < (specStripMap f.mesh).length :=
+    fun i hi => List.mem_range.mp (hρ'.mem_iff.mp hi)
+  have hlen0 : (applyPointMap f (specStripMap f.mesh)).mesh.points.length = (specStripMap f.mesh).length := by
+    show ((specStripMap f.mesh).map _).length = _
+    rw [List.length_map]
+  -- the view is a relabelled copy of the canonical base
+  have hmesh : (applyCellMaps (applyPointMap f τ) κ).mesh =
+      (applyCellMaps (applyPointMap (applyPointMap f (specStripMap f.mesh))
+        (τ.map fun p => (specStripMap f.mesh).idxOf p)) κ).mesh := by
+    apply applyCellMaps_mesh_congr
+    rw [applyPointMap_comp_mesh c0 hρ'lt, h0.rebase_getD hτ]
+  have hrel : Relabeled (applyPointMap f (specStripMap f.mesh)).mesh (applyCellMaps (applyPointMap f τ) κ).mesh
+      (τ.map fun p => (specStripMap f.mesh).idxOf p) := by
+    rw [hmesh]
+    apply relabeled_of_view
+    · intro b' hb' row' hrow' p' hp'
+      obtain ⟨b, hb, rfl⟩ := List.mem_map.mp hb'
+      obtain ⟨row, hrow, rfl⟩ := List.mem_map.mp hrow'
+      obtain ⟨p, hp, rfl⟩ := List.mem_map.mp hp'
+      rw [hlen0]
+      exact List.idxOf_lt_length_iff.mpr (c0.corners b hb row hrow p hp)
+    · rw [hlen0]; exact hρ'
+    · intro b' hb'
+      obtain ⟨b, hb, rfl⟩ := List.mem_map.mp hb'
+      show (κ b.1).Perm (List.range (b.2.map _).length)
+      rw [List.length_map]
+      exact hκ b hb
+  have hyG := hrel.pointHypP hy0
+  have hn0 : (applyPointMap f (specStripMap f.mesh)).mesh.points ≠ [] := by
+    intro e
+    rw [e] at hlen0
+    exact hne (List.length_eq_zero_iff.mp hlen0.symm)
+  have hn2 : (applyCellMaps (applyPointMap f τ) κ).mesh.points ≠ [] := by
+    intro e
+    have hl : (applyCellMaps (applyPointMap f τ) κ).mesh.points.length =
+        (applyPointMap f (specStripMap f.mesh)).mesh.points.length := by
+      rw [hrel.points, List.length_map, hrel.length]
+    rw [e] at hl
+    exact hn0 (List.length_eq_zero_iff.mp hl.symm)
+  obtain ⟨L0, L, e0, e, hmap⟩ := sortPoints_canonical_geom isArgsort_stable has hy0 hyG (fun _ => Iff.rfl)
+    hrel.sameGeometry hn0 hn2 hdist0
+  obtain ⟨L0', e0', p0, _⟩ := sortPointsItems_spec isArgsort_stable hy0 hn0
+  rw [e0] at e0'
+  cases e0'
+  have hI0lt : ∀ j ∈ L0.map (·.1), j < (specStripMap f.mesh).length := by
+    intro j hj
+    obtain ⟨a, ha, rfl⟩ := List.mem_map.mp hj
+    rw [← hlen0]
+    exact pitems_fst_lt (p0.mem_iff.mp ha)
+  refine ⟨L0.map (·.1), by unfold sortPointsIdx; rw [e0]; rfl, hI0lt, hyG, ?_⟩
+  have hIdx : sortPointsIdx as t (applyCellMaps (applyPointMap f τ) κ).mesh =
+      some ((L0.map (·.1)).map fun j => (τ.map fun p => (specStripMap f.mesh).idxOf p).idxOf j) := by
+    unfold sortPointsIdx
+    rw [e, ← hmap]
+    simp only [Option.map_some, List.map_map]
+    rfl
+  have hIlt : ∀ i ∈ (L0.map (·.1)).map (fun j => (τ.map fun p => (specStripMap f.mesh).idxOf p).idxOf j),
+      i < τ.length := by
+    intro i hi
+    obtain ⟨j, hj, rfl⟩ := List.mem_map.mp hi
+    have hjρ : j ∈ τ.map fun p => (specStripMap f.mesh).idxOf p :=
+      hρ'.mem_iff.mpr (List.mem_range.mpr (hI0lt j hj))
+    have := List.idxOf_lt_length_iff.mpr hjρ
+    rwa [List.length_map] at this
+  unfold sortPoints
+  rw [hIdx, Option.map_some, applyPointMap_applyCellMaps, applyPointMap_comp cτ hIlt hwf.pf]
+  congr 3
+  rw [List.map_map]
+  apply List.map_congr_left
+  intro j hj
+  simp only [Function.comp]
+  have hjlt := hI0lt j hj
+  have hq0 : (specStripMap f.mesh).getD j 0 ∈ specStripMap f.mesh := getD_mem hjlt 0
+  have hqτ : (specStripMap f.mesh).getD j 0 ∈ τ := (hτ.mem_iff _).mpr ((h0.mem_iff _).mp hq0)
+  have hj' : (specStripMap f.mesh).idxOf ((specStripMap f.mesh).getD j 0) = j := idxOf_getD h0.nodup hjlt 0
+  have := idxOf_map_of_inj (g := fun p => (specStripMap f.mesh).idxOf p) ((specStripMap f.mesh).getD j 0) τ
+    (fun a ha e => (List.idxOf_inj ((h0.mem_iff a).mpr ((hτ.mem_iff a).mp ha))).mp e)
+  simp only [hj'] at this
+  rw [this, getD_idxOf hqτ]
 
 end Fc.C02
